@@ -163,13 +163,37 @@ theorem writeDiff_other (fixed : Bool) (s : DiffStore) (h x : Nat) (d : Diff) (h
   unfold writeDiff
   by_cases hd : d = [] <;> cases fixed <;> simp [hd, hx]
 
-theorem inv_step (R : List TOp → ρ) (fixed : Bool) (n : Node ρ) (e : Ev) (hi : Inv R fixed n) : Inv R fixed (n.step R fixed e) := by
+theorem inv_step (R : List TOp → ρ) (fixed : Bool) (n : Node ρ) (e : Ev ρ) (hi : Inv R fixed n) : Inv R fixed (n.step R fixed e) := by
   cases e with
   | reset k =>
     simp only [Node.step]
     split
     · exact ⟨hi.gver, linked_take R _ _ _ _ hi.linked, fun hf => storedOk_take _ _ _ _ (hi.stored hf)⟩
     · exact hi
+  | sync d r =>
+    simp only [Node.step]
+    split
+    · exact hi
+    next t' hadd =>
+      split
+      · exact hi
+      next hroot =>
+        have hroot' : t'.root R = r := by simpa using hroot
+        refine ⟨hi.gver, ?_, ?_⟩
+        · apply linked_append R _ _ _ _ hi.linked
+          · simp [ITree.saveVersionAt, Node.head]
+          · simp only [ITree.saveVersionAt]; rw [← hroot']; rfl
+          · rw [← treeAt_head]
+            show (addDiff (n.treeAt n.head) (n.head + 1) d).map (·.log) = some t'.log
+            rw [hadd]; rfl
+        · intro hf
+          subst hf
+          apply storedOk_append
+          · apply storedOk_congr _ _ _ (hi.stored rfl)
+            intro x _ h2
+            exact writeDiff_other _ _ _ _ _ (by simp only [Node.head]; omega)
+          · simp only [Node.head]
+            exact writeDiff_fixed_at _ _ _
   | add dirty =>
     simp only [Node.step]
     split
@@ -196,7 +220,7 @@ theorem inv_step (R : List TOp → ρ) (fixed : Bool) (n : Node ρ) (e : Ev) (hi
           · simp only [Node.head]
             exact writeDiff_fixed_at _ _ _
 
-theorem inv_run (R : List TOp → ρ) (fixed : Bool) : ∀ (evs : List Ev) (n : Node ρ), Inv R fixed n → Inv R fixed (n.run R fixed evs) := by
+theorem inv_run (R : List TOp → ρ) (fixed : Bool) : ∀ (evs : List (Ev ρ)) (n : Node ρ), Inv R fixed n → Inv R fixed (n.run R fixed evs) := by
   intro evs
   induction evs with
   | nil => intro n h; exact h
@@ -249,7 +273,7 @@ theorem replay_linked (R : List TOp → ρ) (stored : DiffStore) : ∀ (rs : Lis
 repaired node, replaying everything it serves (stored diff + header identity root for each canonical height) from
 genesis with `validateIdentityState` is accepted at every height and ends with the history — hence the root, for every
 root function, and the contents — of the node's identity tree -/
-theorem replay_all (R : List TOp → ρ) (base : Nat) (g : ITree) (evs : List Ev) :
+theorem replay_all (R : List TOp → ρ) (base : Nat) (g : ITree) (evs : List (Ev ρ)) :
     let n := (Node.init base g : Node ρ).run R true evs
     ∃ t, fsReplay true R n.genesis n.base n.served = .acc t ∧ t.log = (n.treeAt n.head).log ∧
       t.root R = (n.treeAt n.head).root R ∧ t.contents = (n.treeAt n.head).contents := by
@@ -289,7 +313,7 @@ theorem linked_stored_root (R : List TOp → ρ) (stored : DiffStore) : ∀ (rs 
 
 /-- **diff_replay_root**: for every canonical height `h` of every history (reorganisations included) of the repaired
 node: `root (AddDiff (treeAt (h-1)) (storedDiff h)) = header(h).identityRoot` -/
-theorem diff_replay_root (R : List TOp → ρ) (base : Nat) (g : ITree) (evs : List Ev) :
+theorem diff_replay_root (R : List TOp → ρ) (base : Nat) (g : ITree) (evs : List (Ev ρ)) :
     let n := (Node.init base g : Node ρ).run R true evs
     ∀ (i : Nat) (r : Rec ρ), n.chain[i]? = some r →
       (addDiff (lastTree n.genesis (n.chain.take i)) (n.base + i + 1) (n.stored (n.base + i + 1))).map (ITree.root R)
@@ -315,7 +339,7 @@ theorem treeAt_take (n : Node ρ) (i : Nat) (hi : i ≤ n.chain.length) :
 /-- **diff_replay_root**, stated with the node's own accessors: for every canonical height `h` (above genesis, up to the
 head) of every history of the repaired node, reorganisations included,
 `root (AddDiff (treeAt (h-1)) h (storedDiff h)) = header(h).identityRoot` -/
-theorem diff_replay_root_at (R : List TOp → ρ) (base : Nat) (g : ITree) (evs : List Ev) :
+theorem diff_replay_root_at (R : List TOp → ρ) (base : Nat) (g : ITree) (evs : List (Ev ρ)) :
     let n := (Node.init base g : Node ρ).run R true evs
     ∀ h, n.base < h → h ≤ n.head →
       (addDiff (n.treeAt (h - 1)) h (n.stored h)).map (ITree.root R) = (n.recAt h).map (·.idRoot) := by
@@ -355,7 +379,7 @@ theorem validate_panics_as_found (R : List TOp → ρ) (t : ITree) (h : Nat) (r 
 
 /-- the witness history of finding F5: block 1 kills the validated identity 7 (diff stored), the node resets to
 genesis and adopts a block 1 that leaves the identity state alone -/
-def f5Events : List Ev := [.add [⟨7, false, false, []⟩], .reset 0, .add []]
+def f5Events : List (Ev ρ) := [.add [⟨7, false, false, []⟩], .reset 0, .add []]
 def f5Genesis : ITree := ⟨0, [.set 0 7 [32, 1]]⟩
 
 theorem orderObjs_nil : orderObjs [] = [] := by simp [orderObjs]
